@@ -100,35 +100,51 @@ static std::string stateOf(const Rel& r) {
 }
 
 // ---------------------------------------------------------------------------------------------------- query battery
+// The order of the reading calls rotates (rot): each kind of read is, in some history, the first one after an update, so that a
+// read that fails to regenerate the cached partition lists is not masked by an earlier size() that did.
+static long batteryRot = 0;
 static void battery(const Rel& r, int ri, const std::vector<Val>& universe, std::vector<std::string>& out) {
     std::string R = std::to_string(ri);
     std::size_t cap = 4 * universe.size() * universe.size() + 8;
-    for (Val a : universe)
-        for (Val b : universe) out.push_back("contains " + R + " " + pr(a, b) + " " + std::to_string((int)r.contains(a, b)));
-    out.push_back("size " + R + " " + std::to_string(r.size()));
-    out.push_back("all " + R + " " + listRange(r.begin(), r.end(), cap));
-    for (Val a : universe) {
-        auto rg = r.getBoundaries<1>({{a, 0}});
-        out.push_back("ant " + R + " " + std::to_string(a) + " " + listRange(rg.begin(), rg.end(), cap));
+    long rot = batteryRot++;
+    for (int s = 0; s < 6; s++) {
+        switch ((s + rot) % 6) {
+            case 0: out.push_back("size " + R + " " + std::to_string(r.size())); break;
+            case 1: out.push_back("all " + R + " " + listRange(r.begin(), r.end(), cap)); break;
+            case 2:
+                for (Val a : universe) {
+                    auto rg = r.getBoundaries<1>({{a, 0}});
+                    out.push_back("ant " + R + " " + std::to_string(a) + " " + listRange(rg.begin(), rg.end(), cap));
+                }
+                break;
+            case 3:
+                for (Val a : universe)
+                    for (Val b : universe) {
+                        auto rg = r.getBoundaries<2>({{a, b}});
+                        out.push_back("antpost " + R + " " + pr(a, b) + " " + listRange(rg.begin(), rg.end(), cap));
+                    }
+                break;
+            case 4:
+                for (Val a : universe)
+                    if (r.containsElement(a)) {  // closure(x) requires x to be present
+                        auto it = r.closure(a);
+                        out.push_back("closure " + R + " " + std::to_string(a) + " " + listRange(it, r.end(), cap));
+                    }
+                break;
+            case 5:
+                for (std::size_t chunks : {3u, 1u, 400u}) {
+                    std::string sx;
+                    for (auto& rg : r.partition(chunks)) sx += listRange(rg.begin(), rg.end(), cap) + "|";
+                    out.push_back("part " + R + " " + std::to_string(chunks) + " " + (sx.empty() ? "|" : sx));
+                }
+                break;
+        }
     }
     for (Val a : universe)
-        for (Val b : universe) {
-            auto rg = r.getBoundaries<2>({{a, b}});
-            out.push_back("antpost " + R + " " + pr(a, b) + " " + listRange(rg.begin(), rg.end(), cap));
-        }
+        for (Val b : universe) out.push_back("contains " + R + " " + pr(a, b) + " " + std::to_string((int)r.contains(a, b)));
     {
         auto rg = r.getBoundaries<0>({{0, 0}});
         out.push_back("all " + R + " " + listRange(rg.begin(), rg.end(), cap));
-    }
-    for (Val a : universe)
-        if (r.containsElement(a)) {  // closure(x) requires x to be present
-            auto it = r.closure(a);
-            out.push_back("closure " + R + " " + std::to_string(a) + " " + listRange(it, r.end(), cap));
-        }
-    for (std::size_t chunks : {1u, 3u, 400u}) {
-        std::string s;
-        for (auto& rg : r.partition(chunks)) s += listRange(rg.begin(), rg.end(), cap) + "|";
-        out.push_back("part " + R + " " + std::to_string(chunks) + " " + (s.empty() ? "|" : s));
     }
 }
 
@@ -447,6 +463,7 @@ int main() {
             continue;
         }
         auto f = split(line, ' ');
+        batteryRot = gLine;
         if (f[0] == "Q") {
             runQ(job++, std::stoi(f[1]), f[2] == "b", f[2] != "x", f.size() > 3 ? f[3] : "-");
         } else if (f[0] == "C") {
